@@ -362,6 +362,21 @@ def array_eq_ok(f):
     loop = [s for s in body[1] if s[0] == "for"]
     elem = False
     full = False
+    # the same traversal written with a counter: `var i = 0  while i < len { ..; i = i + 1 }`
+    wl = [s for s in body[1] if s[0] == "while"]
+    if not loop and wl:
+        w = wl[0]
+        c = w[1]
+        wb = w[2][1] if w[2][0] == "block" else []
+        if c[0] == "bin" and c[1] == "<" and c[2][0] == "var" and wb:
+            iv0 = c[2][1]
+            starts0 = any(s_[0] == "let" and s_[1] and s_[2][0] == "pbind" and s_[2][1] == iv0 and A.show(s_[4]) == "0" for s_ in body[1])
+            last_ = wb[-1]
+            steps1 = last_[0] == "assign" and A.show(last_[2]) == iv0 and A.show(last_[3]).replace(" ", "") in (f"({iv0}+1)", f"{iv0}+1")
+            touched = [s_ for s_ in A.walk(wb[:-1]) if isinstance(s_, tuple) and s_ and s_[0] == "assign" and A.show(s_[2]) == iv0]
+            conts = [s_ for s_ in A.walk(wb) if isinstance(s_, tuple) and s_ and s_[0] == "continue"]
+            if starts0 and steps1 and not touched and not conts:
+                loop = [("for", ("pbind", iv0), c[3], ("block", wb[:-1], w[-1]), w[-1])]
     if loop:
         lp = loop[0]
         full = A.show(lp[2]) in (f"{a}.len()", f"{b}.len()")
@@ -715,34 +730,49 @@ def must_use_as_index(stmts, param, recv="self"):
                 return True
         return False
 
-    def block_uses(stmts):
+    def analyse(stmts, used):
+        """(every path that leaves the method from inside `stmts` has used the position; whether the paths that fall
+        through the end have - None when there is no such path), given whether all paths reaching `stmts` have."""
+        ok = True
         for s in stmts:
             k = s[0]
             if k in ("while", "for"):
-                # the loop header is evaluated at least once for while; the body may not run
-                if k == "while" and expr_uses(s[1]):
-                    return True
-                if k == "for" and expr_uses(s[2]):
-                    return True
+                # the loop header is evaluated at least once; the body may not run, but a `return` inside it is an exit
+                if expr_uses(s[1] if k == "while" else s[2]):
+                    used = True
+                body = s[2] if k == "while" else s[3]
+                ok_b, _ = analyse(body[1] if body and body[0] == "block" else [], used)
+                ok = ok and ok_b
                 continue
             if k == "expr" and s[1][0] == "if":
                 e = s[1]
                 if expr_uses(e[1]):
-                    return True
-                if e[3] is not None and block_uses(e[2][1]) and block_uses(e[3][1]):
-                    return True
+                    used = True
+                ok_t, ft_t = analyse(e[2][1] if e[2][0] == "block" else [("expr", e[2], e[-1])], used)
+                if e[3] is not None:
+                    ok_e, ft_e = analyse(e[3][1] if e[3][0] == "block" else [("expr", e[3], e[-1])], used)
+                else:
+                    ok_e, ft_e = True, used
+                ok = ok and ok_t and ok_e
+                fts = [x for x in (ft_t, ft_e) if x is not None]
+                if not fts:
+                    return ok, None
+                used = all(fts)
                 continue
             if k == "return":
-                return s[1] is not None and expr_uses(s[1])
+                if s[1] is not None and expr_uses(s[1]):
+                    used = True
+                return ok and used, None
             if k == "let" and expr_uses(s[4]):
-                return True
-            if k == "assign" and (expr_uses(s[2]) or expr_uses(s[3])):
-                return True
-            if k == "expr" and expr_uses(s[1]):
-                return True
-        return False
+                used = True
+            elif k == "assign" and (expr_uses(s[2]) or expr_uses(s[3])):
+                used = True
+            elif k == "expr" and expr_uses(s[1]):
+                used = True
+        return ok, used
 
-    return block_uses(stmts)
+    ok, ft = analyse(stmts, False)
+    return ok and (ft is None or ft)
 
 
 @rule("INDEX-MUST-USE", ["C26"], "array methods taking a position apply it to a bounds-checked subscript on every path (an out-of-range position stops with the runtime error)")
